@@ -12,22 +12,19 @@ MODEL = "wntr/network/model.py"
 IO = "wntr/epanet/io.py"
 
 EXPLANATION = (
-    "The facts are decided by EVALUATING the repository's code, not by matching its shape. (1) SimTimeCondition.evaluate and TimeOfDayCondition.evaluate are run "
-    "by a tree-walking interpreter (sa/concrete.py; nothing is imported or executed natively) on objects placed in every representative ordering of previous "
-    "time < current time against the threshold instants, per relation and repeat mode, and the returned truth value and back-track are compared with the "
-    "instant / interval semantics of the statement (range relations are true exactly while the relation holds at the current time, whatever the previous time: "
-    "`>` / `<` strict, `>=` / `<=` inclusive, for both classes alike); the model's shifted-time properties are evaluated the same way. (2) The pre-solve scheduler, the feasibility "
-    "and the post-solve runner of the simulator are run by the same interpreter on stand-in controls, rules, checkers and change tracker over a family of "
-    "scenarios (ties reported out of priority order, several instants, rule instants before / at / after control instants, first step, continued run, with and "
-    "without trace logging) and the observable schedule -- which action runs in which order, at which times the rules are evaluated, the rule clock and sim_time "
-    "on return, the (previous, current) time window the conditions see while the rules are checked -- is compared with an independently computed oracle; "
-    "rules carrying REAL SimTimeCondition objects (evaluated by the interpreter inside the simulated rule check) must be reported true exactly at the rule "
-    "instants at which their condition holds, an `=` rule at one instant only. (3) What run_sim hands to the scheduler (rule clock on a first step, return to the "
-    "hydraulic grid after a step) is obtained by path-enumerating symbolic execution with sympy normal forms. (4) The classification of controls (type stored "
-    "by Control / Rule per concrete condition class, which checker receives which type from which source) is obtained by symbolic execution in which the tests "
-    "are decided for one concrete case at a time and helpers are executed in place, so if-chains, early returns, conditional expressions and lookup tables are "
-    "alike. (5) The arguments with which Control._time_control and the INP reader build time conditions are read from the call events of symbolic execution, "
-    "bound by the callee's signature. Decides the conditions' truth tables and the scheduler's behaviour on the scenarios, not EPANET's own timeline.")
+    "Mostly T3: finite evaluation of the repository's parsed code by the in-house interpreter (sa/concrete.py; nothing is imported or executed natively) on "
+    "fixtures, bounded to them. R-C04-1: SimTimeCondition.evaluate and TimeOfDayCondition.evaluate are run on a half-hour lattice of (previous, current) "
+    "times against 3-4 thresholds, per relation and repeat mode; truth value and back-track must follow the instant / interval semantics (`=` exactly at the "
+    "instant; `>` / `<` strict, `>=` / `<=` inclusive at the current time, both classes alike). R-C04-2: the model's shifted-time properties on 5 fixtures. "
+    "R-C04-3, -4, -6: the pre-solve scheduler and the feasibility / post-solve runners are run on stand-in controls, rules and change tracker over 16 "
+    "scenarios (ties, several instants, first step, continued run) and compared with an "
+    "independently written oracle: order of the actions (-3), rule instants, rule clock and the (previous, current) window the conditions see, incl. real "
+    "SimTimeCondition rules (-4), sim_time on return (-6). T2, symbolic path enumeration of run_sim: the rule clock stored before the loop is an integer "
+    "literal >= 1 on a first step (-4, one numeric test, no normal form); the time advance is extracted as a sympy expression and then checked on 7 sample "
+    "(t, h) pairs only (-6). R-C04-5 (T2, DecidedExec: symbolic execution with the tests decided for one concrete case at a time, exhaustive over every "
+    "condition class and _ControlType member): the control type stored by Control / Rule and which checker receives which type. R-C04-7 (T2, call events "
+    "bound by the callee's signature, compared as text): the arguments with which Control._time_control and the INP reader build time conditions. Decides "
+    "the truth tables on the lattice and the scheduler on the scenarios, not EPANET's own timeline.")
 RULE_TEXT = ("one instance = one (condition class, relation, repeat mode) truth table, one (scenario, aspect) of the simulated scheduler, one classification or "
              "construction fact")
 ASSUMPTIONS = ["previous solved time < current time; thresholds and times are whole seconds", "`ne` conditions are not required by the statement",
